@@ -188,6 +188,22 @@ Definition int_cell_ok (c : Q * Q * Z) : bool :=
   if a =? Qfloor (snd (fst c) + (1 # 2)) then snd c =? a else true.
 Definition int_ok (cells : list (Q * Q * Z)) : bool := forallb int_cell_ok cells.
 
+(* ------------------------------------------------------------------ the shift and scale of the integerisation
+   (tomtom.py: z_min / z_max = extreme median-centred similarities over all query columns;
+    i_min = floor(z_min); bin_scale = floor(n_bins / (z_max - i_min)); offset = -i_min * bin_scale).
+   The harness recomputes z_min and z_max from the PWM entries (exactly on coarse-grid inputs, then
+   lo = hi; as rigorous brackets otherwise) with the median taken from the kernel; where the brackets decide
+   both floors, the offset the kernel returned must be the one the definition gives. *)
+Definition shift_ok (nb : Z) (zl zh Zl Zh : Q) (off : Z) : bool :=
+  let a := Qfloor zl in
+  if a =? Qfloor zh then
+    if Qle_bool (Zl - inject_Z a) 0 then true
+    else
+      let s1 := Qfloor (inject_Z nb / (Zh - inject_Z a)) in
+      let s2 := Qfloor (inject_Z nb / (Zl - inject_Z a)) in
+      if s1 =? s2 then off =? - a * s1 else true
+  else true.
+
 (* "a motif compared with a set containing itself attains its best score at offset 0 with full overlap":
    for a target whose columns are the query's own columns, the integerised similarities the kernel
    produced must make relative offset 0 a maximiser of the complete score, with overlap nq
@@ -202,6 +218,7 @@ Inductive case :=
 | KQuery (with_model : bool) (c : call) (o : outcome)   (* with_model = false: reference only (large inputs) *)
 | KMono (band : Z) (d2 xs : list Z)
 | KInt (cells : list (Q * Q * Z))                       (* (lo, hi, x) per recomputed cell *)
+| KShift (nb : Z) (zl zh Zl Zh : Q) (off : Z)            (* brackets of z_min, z_max; offset returned *)
 | KSelf (c : call) (start : nat)                         (* the target starting at [start] equals the query *)
 | KRaised                                               (* an in-scope tomtom(...) call raised *)
 | KMany (l : list case).                                (* the queries of one tomtom(...) call *)
@@ -212,6 +229,7 @@ Fixpoint check_case (k : case) : nat :=
   | KQuery false c o => verdict true (spec_ok c o)
   | KMono band d2 xs => verdict true (mono_ok band d2 xs)
   | KInt cells => verdict true (int_ok cells)
+  | KShift nb zl zh Zl Zh off => verdict true (shift_ok nb zl zh Zl Zh off)
   | KSelf c start => verdict true (self_ok c start)
   | KRaised => 2%nat
   | KMany l => (fix go (l : list case) : nat :=
